@@ -14,7 +14,7 @@ import (
 func init() {
 	register(Property{ID: "C42", Level: "other", Run: runC42,
 		Technique: "static analysis: structural rules on the SSA of staticsources.resolveSource and forward.resolveDest (substitution chain, induction variable of the group loop, operand bindings), sibling agreement of the two resolvers, module-wide field-store provenance of the name/groups/query operands, constant evaluation of the path-name charset",
-		Text: "Decides for both resolvers: every substitution is strings.ReplaceAll (all occurrences) chained on the template; the group loop starts at len(matches)-1, steps by -1 and stops below 1, so $G10 is substituted before $G1; the placeholder is \"$G\"+FormatInt(i,10) and the replacement is matches[i] for the same i; $MTX_PATH is replaced by the path-name parameter and $MTX_QUERY by the query parameter; the query - the only operand with arbitrary client characters - is substituted last and its result is returned without further substitution; names and groups cannot contain '$' because the path-name charset excludes it; the operands handed to the resolvers are the path's own name, the capture groups FindPathConf returned for that very name, and the on-demand request query. Does not decide strings.ReplaceAll/strconv semantics or templates that splice a placeholder out of a group value and adjacent literal text.",
+		Text: "Decides for both resolvers: every substitution is strings.ReplaceAll (all occurrences) chained on the template; the group loop starts at len(matches)-1, steps by -1 and stops below 1, so $G10 is substituted before $G1; the placeholder is \"$G\"+FormatInt(i,10) and the replacement is matches[i] for the same i; $MTX_PATH is replaced by the path-name parameter and $MTX_QUERY by the query parameter; the query - the only operand with arbitrary client characters - is substituted last and its result is returned without further substitution; names and groups cannot contain '$' because the path-name charset excludes it; the operands handed to the resolvers are the path's own name, the capture groups FindPathConf returned for that very name, and the on-demand request query; the string handed to the connector (StaticSourceRunParams.ResolvedSource, the Dest field of every forwarder) originates on every path from a resolver call evaluated for the current run, or from a cache field whose every store is a resolver result or \"\" and which is reset after every store to a field the resolution reads (Conf, Matches, query, PathName). Does not decide strings.ReplaceAll/strconv semantics or templates that splice a placeholder out of a group value and adjacent literal text.",
 		Note: "trusted: strings.ReplaceAll, strconv.FormatInt, regexp group numbering (FindStringSubmatch index n = group n); path names are validated (C06); configuration templates are operator-controlled"})
 	addMutants(
 		Mutant{"C42", "source-groups-ascending", "internal/staticsources/handler.go",
@@ -34,6 +34,11 @@ func init() {
 			"s = strings.ReplaceAll(s, \"$MTX_QUERY\", query)", "s = strings.Replace(s, \"$MTX_QUERY\", query, 1)", "C42.all_occurrences"},
 		Mutant{"C42", "dest-path-replaced-by-template", "internal/forward/dest_handler.go",
 			"out := strings.ReplaceAll(dest, \"$MTX_PATH\", pathName)", "out := strings.ReplaceAll(dest, \"$MTX_PATH\", dest)", "C42.operand"},
+		Mutant{"C42", "resolved-source-cached-across-starts", "internal/staticsources/handler.go",
+			"func (s *Handler) run() {\n	defer close(s.done)\n\n	var runCtx context.Context\n	var runCtxCancel func()\n	runErr := make(chan error)\n	runReloadConf := make(chan *conf.Path)\n\n	recreate := func() {\n		resolvedSource := resolveSource(s.Conf.Source, s.Matches, s.query)\n",
+			"var resolvedOf = map[*Handler]string{}\n\nfunc (s *Handler) run() {\n	defer close(s.done)\n\n	var runCtx context.Context\n	var runCtxCancel func()\n	runErr := make(chan error)\n	runReloadConf := make(chan *conf.Path)\n\n	recreate := func() {\n		if resolvedOf[s] == \"\" {\n			resolvedOf[s] = resolveSource(s.Conf.Source, s.Matches, s.query)\n		}\n		resolvedSource := resolvedOf[s]\n", "C42.delivered"},
+		Mutant{"C42", "dest-connects-to-raw-template-on-retry", "internal/forward/dest_handler.go",
+			"	resolvedDest := resolveDest(h.Conf.Dest, h.PathName, h.Matches)\n", "	resolvedDest := h.Conf.Dest\n	if h.lastError == \"\" {\n		resolvedDest = resolveDest(h.Conf.Dest, h.PathName, h.Matches)\n	}\n", "C42.delivered"},
 		Mutant{"C42", "static-source-without-groups", "internal/core/path.go",
 			"			Matches:           pa.matches,\n			PathManager:       pa.parent,", "			PathManager:       pa.parent,", "C42.provenance"},
 		Mutant{"C42", "forward-gets-conf-name", "internal/core/path.go",
@@ -56,7 +61,7 @@ func runC42(c *Ctx) {
 	if p == nil {
 		return
 	}
-	c.Explain = "E1/E7 on staticsources.resolveSource(s, matches, query) and forward.resolveDest(dest, pathName, matches): all_occurrences (only strings.ReplaceAll), chain (each substitution works on the template or on the previous result; the returned value is the end of the chain), group.order (induction variable = phi(len(matches)-1, i-1), loop guard i >= 1), group.binding (\"$G\"+strconv.FormatInt(int64(i),10) ↦ matches[i]), operand ($MTX_PATH ↦ pathName, $MTX_QUERY ↦ query), query_last (the $MTX_QUERY result only flows to the return), placeholders (exact placeholder set per resolver), dollar_free (conf.rePathName admits no '$'), provenance (E2 over all stores of Handler.Matches/.query, DestHandler/Manager.PathName/.Matches, path.name/.matches and the createPath call sites: groups are FindPathConf(_, name)#1 for the same name). " +
+	c.Explain = "E1/E7 on staticsources.resolveSource(s, matches, query) and forward.resolveDest(dest, pathName, matches): all_occurrences (only strings.ReplaceAll), chain (each substitution works on the template or on the previous result; the returned value is the end of the chain), group.order (induction variable = phi(len(matches)-1, i-1), loop guard i >= 1), group.binding (\"$G\"+strconv.FormatInt(int64(i),10) ↦ matches[i]), operand ($MTX_PATH ↦ pathName, $MTX_QUERY ↦ query), query_last (the $MTX_QUERY result only flows to the return), placeholders (exact placeholder set per resolver), dollar_free (conf.rePathName admits no '$'), provenance (E2 over all stores of Handler.Matches/.query, DestHandler/Manager.PathName/.Matches, path.name/.matches and the createPath call sites: groups are FindPathConf(_, name)#1 for the same name), delivered (value-origin trace of every store to StaticSourceRunParams.ResolvedSource and forward/*.Dest.Dest through locals, captured variables and phis: leaves must be resolver calls; a struct-field leaf is a cache and must satisfy delivered.cache: fills are resolver results or \"\", operand-field stores are followed by a reset). " +
 		"NOT decided: library semantics; a template that splices '$G<n>' out of a group value and neighbouring literal characters."
 	c.Assume = []string{
 		"strings.ReplaceAll replaces every non-overlapping occurrence; strconv.FormatInt(i,10) is the decimal numeral",
@@ -73,6 +78,7 @@ func runC42(c *Ctx) {
 	}
 	c42DollarFree(c, p)
 	c42Provenance(c, p, src, dst)
+	c42Delivered(c, p, src, dst)
 }
 
 func c42Classify(call *ssa.Call) *c42Subst {
